@@ -177,6 +177,26 @@ def check_case(text, msg_types, exp, path, label, r, problems):
     except Exception as e:  # noqa: BLE001
         got = ('error', type(e).__name__, str(e))
     r.outcomes[f'{exp[0]}->{got[0]}{":" + got[1] if got[0] == "error" else ""}'] += 1
+    # E4, history of length 2-3 on ONE property object: a check against decoy schemas (same field tree, other leaf
+    # types and array lengths; a schema without these fields) must leave nothing behind that changes a later check
+    decoys = getattr(check_case, 'decoys', None)
+    if decoys:
+        st2, prop2 = impl.try_parse('prop', text)
+        if st2 == 'ok':
+            for d in decoys:
+                r.count('transitions')
+                try:
+                    prop2.type_check_references(d)
+                except Exception:  # noqa: BLE001
+                    pass
+            r.count('transitions')
+            try:
+                prop2.type_check_references(msg_types)
+                again = ('ok',)
+            except Exception as e:  # noqa: BLE001
+                again = ('error', type(e).__name__, str(e))
+            if again[:2] != got[:2]:
+                problems.append(('schema check depends on earlier checks of the same property object against other schemas', f'{label}: «{text}»: fresh object: {got[:2]}, after checks against decoy schemas: {again[:2]}'))
     if exp[0] == 'ok' and got[0] != 'ok':
         problems.append((f'valid reference rejected by the schema check [{label[1]}]', f'{label}: «{text}»: {got[1]}: {got[2][:160]}'))
     elif exp[0] == 'error' and got[0] == 'ok':
@@ -216,6 +236,9 @@ def run_schema(sname, tier, r):
     atok = schemas.to_token(schemas.renamed(sc), 'MA')
     other = schemas.to_token(schemas.FAMILY['flat'], 'O')
     msg_types = {'t': tok, 's': atok, 'u': other}
+    dtok = schemas.to_token(schemas.retyped(sc), 'D')
+    datok = schemas.to_token(schemas.renamed(schemas.retyped(sc)), 'DA')
+    check_case.decoys = [{'t': dtok, 's': datok, 'u': other}, {'t': other, 's': other, 'u': other}]
     root_types = {'this': sc, 'A': schemas.renamed(sc)}
     for rootname, path, t, st, why in schema_cases(sname, tier):
         for site_name, (site_type, build) in st.items():
@@ -418,7 +441,7 @@ def replay(w):
 def describe(tier):
     b = bounds(tier)
     return {
-        'rule': f"schemas {list(b['schemas'])}: every valid accessor chain (depth <= {b['path_depth']}, rooted at the current message and at an alias; plus in-range literal indices) and every chain invalid in exactly one way (unknown field, field access on a primitive / array, index on a primitive / message, literal index = length and length + 1) placed at each of up to 16 nesting sites (top level, under not/and, arithmetic, range bound, set element, function argument, quantifier body, quantifier range domain, boolean and string sites, array sites: in / len / quantifier domain, index expression, arithmetic inside an index, index on an inner accessor of a chain, an array of the other message indexed by this message's reference) - sites whose required type differs from the declared one give the type-mismatch cases - and at 5 property positions / 5 alias bindings (incl. aliases bound inside event disjunctions; the aliased message has a different message type); expectation from the independent resolver; the raised error must name the offending field, index or path. Plus leaf_fields / get_type_of / contains_name on every (nested) message of all 6 schemas, the 8 predefined integer tokens, and constructor grids (169 min/max pairs incl. integers beyond 2**53 that differ by one, 6 array lengths, 15 enumerated-value combinations, all 128 type sets for TypeToken).",
+        'rule': f"schemas {list(b['schemas'])}: every valid accessor chain (depth <= {b['path_depth']}, rooted at the current message and at an alias; plus in-range literal indices) and every chain invalid in exactly one way (unknown field, field access on a primitive / array, index on a primitive / message, literal index = length and length + 1) placed at each of up to 16 nesting sites (top level, under not/and, arithmetic, range bound, set element, function argument, quantifier body, quantifier range domain, boolean and string sites, array sites: in / len / quantifier domain, index expression, arithmetic inside an index, index on an inner accessor of a chain, an array of the other message indexed by this message's reference) - sites whose required type differs from the declared one give the type-mismatch cases - and at 5 property positions / 5 alias bindings (incl. aliases bound inside event disjunctions; the aliased message has a different message type); expectation from the independent resolver; the raised error must name the offending field, index or path. Plus leaf_fields / get_type_of / contains_name on every (nested) message of all 6 schemas, the 8 predefined integer tokens, and constructor grids (169 min/max pairs incl. integers beyond 2**53 that differ by one, 6 array lengths, 15 enumerated-value combinations, all 128 type sets for TypeToken). Every case is checked twice: on a fresh property object, and on a second object after it was checked against two decoy schemas (same field tree with every leaf type changed and arrays cut to length 1; a schema without these fields) - the verdicts must agree.",
         'bounds': {'path_depth': b['path_depth'], 'schemas': len(b['schemas'])},
         'exhaustive': True,
         'assumptions': ['resolver and field-tree walk in hplmc/schemas.py are the reference'],
